@@ -15,11 +15,13 @@ pub(crate) fn parse_file(ctx: &mut StaticsContext, file_id: FileId) -> Rc<FileAs
 
     let tokens = tokenize_file(ctx, file_id);
 
-    let file_len = {
+    // EOF tokens point at the last character of the file (where it starts: a character can be
+    // several bytes long)
+    let eof_pos = {
         let file_data = ctx.file_db.get(file_id).unwrap();
-        file_data.source.len()
+        file_data.source.char_indices().last().map_or(0, |(i, _)| i)
     };
-    let mut parser = Parser::new(tokens, file_id, file_len);
+    let mut parser = Parser::new(tokens, file_id, eof_pos);
     while !parser.done() {
         match parser.parse_item() {
             Ok(item) => {
@@ -67,17 +69,17 @@ struct Parser {
 
     tokens: Vec<Token>,
     file_id: FileId,
-    file_len: usize, // used for EOF tokens
+    eof_pos: usize, // used for EOF tokens
 }
 
 impl Parser {
-    fn new(tokens: Vec<Token>, file_id: FileId, file_len: usize) -> Self {
+    fn new(tokens: Vec<Token>, file_id: FileId, eof_pos: usize) -> Self {
         Parser {
             index: 0,
             error_found: false,
             tokens,
             file_id,
-            file_len,
+            eof_pos,
             errors: vec![],
         }
     }
@@ -121,8 +123,8 @@ impl Parser {
         Token {
             kind: TokenKind::Eof,
             span: Span {
-                lo: self.file_len - 1,
-                hi: self.file_len - 1,
+                lo: self.eof_pos,
+                hi: self.eof_pos,
             },
         }
     }
